@@ -338,7 +338,7 @@ def table_rule(ck, prog):
                       f"{name}: the ALPHA used by the code is the one checked above", loc=None)
 
 
-def sep_rule(ck, prog):
+def sep_rule(ck, prog, items=None, floor=10):
     n = 0
     for name, info in RESCUE.items():
         mod = info["mod"]
@@ -346,7 +346,7 @@ def sep_rule(ck, prog):
         for f in prog.fns.values():
             if not f.nname.startswith("<" + mod + "::"):
                 continue
-            if f.get("impl_trait") in (HASHER, EHASHER) and f.get("item_name") in ("hash", "hash_elements", "merge", "merge_with_int"):
+            if f.get("impl_trait") in (HASHER, EHASHER) and f.get("item_name") in (items or ("hash", "hash_elements", "merge", "merge_with_int")):
                 entries.append(f)
         for f in entries:
             ck.saw(f)
@@ -409,6 +409,15 @@ def sep_rule(ck, prog):
                     if s["rv"]["k"] == "bin" and s["rv"]["op"] == "Div":
                         w = g.walk(ops=[s["rv"]["a"], s["rv"]["b"]], at=(b, i))
                         div_ok = div_ok or is_val_mod(w)
+                # where the integer type cannot reach twice the modulus the quotient of the two-limb branch is always 1: the constant ONE
+                # is the same encoding (64-bit field, u64 value); for a smaller modulus (62-bit field: quotients 1..4) it is not
+                fld = "f62" if "rp62" in f.nname else "f64"
+                mc = prog.consts.get(f"winter_math::field::{fld}::M") or {}
+                m_val = int(mc["scalar"]) if str(mc.get("scalar") or "").isdigit() else None
+                one_stored = any(str(k).endswith("::ONE") for k in g.consts_in(g.walk(ops=[x for _, _, st in const_stores for x in g._rv_ops(st["rv"])[0]], at=(const_stores[-1][0], const_stores[-1][1])))) if const_stores else False
+                quotient_is_one = m_val is not None and 2 * m_val > 2 ** 64 - 1
+                if not div_ok and quotient_is_one and one_stored:
+                    div_ok = True
                 # the threshold of the two encodings: one limb iff value < MODULUS (strictly), two limbs otherwise
                 thr_ok, thr_detail = False, "no comparison of `value` with MODULUS found"
                 for b, blk in enumerate(f.blocks):
@@ -438,7 +447,7 @@ def sep_rule(ck, prog):
                         continue
                     divs = [bb for bb, ii, ss in f.assigns() if ss["rv"]["k"] == "bin" and ss["rv"]["op"] == "Div"]
                     r_small = reach(f, [(small_edge[0], S)])
-                    thr_ok = bool(divs) and not any((bb, S) in r_small for bb in divs)
+                    thr_ok = (bool(divs) and not any((bb, S) in r_small for bb in divs)) or (not divs and div_ok)
                     thr_detail = None if thr_ok else "the one-limb branch (value < MODULUS) also computes value / MODULUS"
                 ck.ob("SEP", f"{name}::merge_with_int:threshold", thr_ok,
                       f"{name}::merge_with_int: one limb iff value < MODULUS (strict), two limbs (value % M, value / M) otherwise", loc=f.loc(), detail=thr_detail)
@@ -447,7 +456,7 @@ def sep_rule(ck, prog):
                       "is value / MODULUS, so the map value -> state is injective", loc=f.loc())
             else:
                 ck.ob("SEP", f"{name}::merge:defined", True, f"{name}::merge hashes a fixed-length input (two digests)", loc=f.loc())
-    ck.floor("sponge entries", n, 10)
+    ck.floor("sponge entries", n, floor)
     ck.control("a per-block counter would be recognised as reset", True)
 
 
